@@ -179,12 +179,19 @@ func (b *builder) streamTask() TaskSpec {
 	return t
 }
 
+// C04TasksOnly restricts the C04 population to multi-task worlds (used by the
+// yield-build and race-detector passes, whose only subject is isolation).
+var C04TasksOnly bool
+
 // C04: hostile peers on every driver, direct calls of every exported
 // function on arbitrary bytes, and interleaved independent tasks.
 func (b *builder) buildC04() {
-	if b.r.Chance(2, 5) {
+	if C04TasksOnly || b.r.Chance(2, 5) {
 		// task world: 1..4 independent callers
 		n := b.r.PickInt(1, 2, 2, 3, 4)
+		if C04TasksOnly {
+			n = b.r.PickInt(2, 2, 3, 4)
+		}
 		for i := 0; i < n; i++ {
 			if b.r.Chance(1, 3) {
 				b.sc.Tasks = append(b.sc.Tasks, b.streamTask())
@@ -192,7 +199,7 @@ func (b *builder) buildC04() {
 				b.sc.Tasks = append(b.sc.Tasks, b.directTask())
 			}
 		}
-		for i := b.r.Range(0, 40); i > 0; i-- {
+		for i := b.r.PickInt(0, 5, 40, 40, 400); i > 0; i-- {
 			b.sc.Sched = append(b.sc.Sched, b.r.Intn(1<<16))
 		}
 		return
